@@ -400,6 +400,8 @@ def main():
         for v in ex.get("violations", []):
             viols.append(("extra", "", 0, v.get("kind", "PROC"), v.get("group", ""), json.dumps(v)[:4000]))
         totals["evaluations"] += ex.get("evaluations", 0)
+        totals["agree"] += ex.get("agree", 0)
+        totals["oracle_ok"] += ex.get("oracle_ok", 0)
         for s in ex.get("samples", [])[:3]:
             samples.append(s)
         for h in ex.get("distinct", []):
